@@ -253,6 +253,23 @@ func runCheck(prop, tier string, seed uint64) int {
 		sort.Slice(agg.relevant, func(i, j int) bool { return agg.relevant[i].World < agg.relevant[j].World })
 		replayPath, vio = shrinkAndSave(prop, known, agg.relevant[0])
 	}
+	seenLine := map[string]bool{}
+	for _, l := range knownLines {
+		seenLine[l] = true
+	}
+	var hitKeys []string
+	for k := range agg.knownHits {
+		hitKeys = append(hitKeys, k)
+	}
+	sort.Strings(hitKeys)
+	for _, k := range hitKeys {
+		parts := strings.SplitN(k, " ", 2)
+		l := fmt.Sprintf("KNOWN-FINDING: property=%s %s", parts[0], parts[1])
+		if parts[0] == prop && !seenLine[l] {
+			seenLine[l] = true
+			knownLines = append(knownLines, l)
+		}
+	}
 	writeEvidence(prop, tier, seed, agg, time.Since(t0).Seconds(), violations, knownLines)
 	for _, l := range knownLines {
 		fmt.Println(l)
